@@ -1422,6 +1422,8 @@ private:
     // exception, which we catch and handle here.
     const size_type hp = hashpower();
     const ResizeCounter resize_counter = load_resize_counter();
+    LIBCUCKOO_VERIF_EVENT(EV_RUN_CUCKOO_HP, this, hp);
+    LIBCUCKOO_VERIF_EVENT(EV_RUN_CUCKOO_RC, this, resize_counter.value);
     b.unlock();
     CuckooRecords cuckoo_path;
     bool done = false;
@@ -1545,6 +1547,10 @@ private:
       assert(bucket_i == b.i1 || bucket_i == b.i2);
       b = lock_two(resize_counter, b.i1, b.i2, TABLE_MODE());
       LIBCUCKOO_VERIF_EVENT(EV_BUCKET_ACCESS, &buckets_, bucket_i);
+      LIBCUCKOO_VERIF_EVENT(EV_PATH_DEPTH, this, 0);
+      LIBCUCKOO_VERIF_EVENT(EV_PATH_HOP, this,
+                            (size_type(bucket_i) << 40) |
+                                (size_type(cuckoo_path[0].slot) << 32));
       if (!buckets_[bucket_i].occupied(cuckoo_path[0].slot)) {
         return true;
       } else {
@@ -1574,6 +1580,12 @@ private:
 
       LIBCUCKOO_VERIF_EVENT(EV_BUCKET_ACCESS, &buckets_, from.bucket);
       LIBCUCKOO_VERIF_EVENT(EV_BUCKET_ACCESS, &buckets_, to.bucket);
+      LIBCUCKOO_VERIF_EVENT(EV_PATH_DEPTH, this, depth);
+      LIBCUCKOO_VERIF_EVENT(EV_PATH_HASH, this, from.hv.hash);
+      LIBCUCKOO_VERIF_EVENT(EV_PATH_HOP, this,
+                            (size_type(from.bucket) << 40) |
+                                (size_type(fs) << 32) |
+                                (size_type(to.bucket) << 8) | size_type(ts));
       bucket &fb = buckets_[from.bucket];
       bucket &tb = buckets_[to.bucket];
 
@@ -1742,6 +1754,7 @@ private:
       return cuckoo_expand_simple<TABLE_MODE, AUTO_RESIZE>(current_hp + 1);
     }
     const size_type new_hp = current_hp + 1;
+    LIBCUCKOO_VERIF_EVENT(EV_DOUBLE_REQ, this, current_hp);
     auto all_locks_manager = lock_all(TABLE_MODE());
     cuckoo_status st = check_resize_validity<AUTO_RESIZE>(current_hp, new_hp);
     if (st != ok) {
